@@ -39,6 +39,16 @@ Property theorems:
   continuation cell — otherwise `Scr.put` takes the `putKeep` branch and the written text is
   inserted AFTER the kept wide character (see the `decide`d example in `Examples`): for a
   `.keep` outer terminal the statement is false there.
+* Part 7, the region-level invariant: `repaint_region_state` / `repaint_region` (the whole
+  painting `renderRegion s r0` over an ARBITRARY outer terminal of the inner screen's size —
+  `OuterGrid` —, whatever its autowrap state: rows of the clamped region repainted, rows outside
+  unchanged, cursor kept, saved cursor overwritten, autowrap ON, style default),
+  `regionChanged_keeps_sync` (an attached mirror, `SyncedRegion o sOld R`, inner change confined
+  to the rectangle `D`, `RegionChanged(D)` painting a window that cuts no character: afterwards
+  `SyncedRegion o' sNew R`, `OuterGrid o' sNew`, cursor as `cursor_spec` says),
+  `regionChanged_empty_keeps_sync` (empty `D ∩ R`), `attach_establishes_sync` (the invariant
+  after `Attach` on a fresh outer terminal) and `mirror_invariant_run` (the invariant along any
+  list of (inner change, `RegionChanged`) steps).
 
 Hypotheses the proofs needed, all explicit:
 * `cw 32 ≤ 1` — the blank that stands for a cell of a cut wide character is the character U+0020
@@ -1643,6 +1653,765 @@ theorem repaint_syncs (cw : Nat → Nat) (o : Term) (W x0 x02 x x2 y : Nat) (r r
       have hger := headOf_ge_of_clean (i := i) hrx2 (by omega)
       exact (cutCell_congr (fun j j1 _ => hagree j (Or.inr (by omega)))).symm
 
+/-! ## Part 7 — the region-level invariant
+
+The whole painting `renderRegion s r0` over an ARBITRARY outer terminal of the inner screen's
+size, and the capstone: an attached mirror keeps the outer terminal equal to the inner screen
+inside its region. -/
+
+/-- the new outer row: the window `[x, x2)` of the inner row `r` written over the outer row `R0`
+    (the outer character straddling `x`, if any, blanked whole first) -/
+def newRow (R0 r : Row) (x x2 : Nat) : Row :=
+  repaintedRow (TM.C03.Lemmas.fixAt R0 x (styAt (subCells r x x2) 0)) x x2 (subCells r x x2)
+
+/-- the grid after the rows `y, …, y+n-1` of the region have been repainted on `G` -/
+def repaintRows (s : Scr) (x x2 : Nat) : List Row → Nat → Nat → List Row
+  | G, _, 0 => G
+  | G, y, n+1 => repaintRows s x x2 (G.set y (newRow (G.getD y []) (s.row y) x x2)) (y + 1) n
+
+/-- the outer terminal once `ESC [ s`, `ESC [ ? 7 l` have been read: cursor saved, autowrap off -/
+def stSaved (o : Term) : Term :=
+  { o with main := { o.main with sx := o.main.cx, sy := o.main.cy, wrap := false } }
+
+/-- the outer terminal after the whole painting: grid `G`, cursor back where it was, saved cursor
+    overwritten with that position, autowrap ON, current style default; everything else as in `o` -/
+def stDone (o : Term) (G : List Row) : Term :=
+  { o with main := { o.main with grid := G, sx := o.main.cx, sy := o.main.cy, wrap := true,
+                                 sty := Style.default } }
+
+/-- the outer terminal between `ESC [ ? 7 h` and `ESC [ u` -/
+def stPainted (o : Term) (G : List Row) (cx cy : Nat) : Term :=
+  { o with main := { o.main with grid := G, cx := cx, cy := cy, sx := o.main.cx, sy := o.main.cy,
+                                 wrap := true, sty := Style.default } }
+
+/-- the outer terminal fits the inner screen: main screen active, same size, every row of the
+    screen's width and well formed -/
+structure OuterGrid (o : Term) (s : Scr) : Prop where
+  main : o.onAlt = false
+  width : o.main.w = s.w
+  height : o.main.h = s.h
+  glen : o.main.grid.length = s.h
+  rows : ∀ y, y < s.h → (o.main.row y).length = s.w ∧ rowWF (o.main.row y) = true
+
+namespace Lemmas
+
+/-- the repainted row satisfies the painting invariant (row level, no terminal involved) -/
+theorem paintInv_newRow (cw : Nat → Nat) (R0 cells : Row) (x x2 : Nat) (hRwf : rowWF R0 = true)
+    (hx : x < x2) (hx2 : x2 ≤ R0.length) (hcl : cells.length = x2 - x) (hok : RowOK cw cells) :
+    PaintInv (TM.C03.Lemmas.fixAt R0 x (styAt cells 0)) x x2 cells
+      (repaintedRow (TM.C03.Lemmas.fixAt R0 x (styAt cells 0)) x x2 cells) := by
+  obtain ⟨cs, hcs, hch⟩ := rowOK_chars cw cells.length cells (Nat.le_refl _) hok
+  have hRwf' := TM.C03.Lemmas.fixAt_wf hRwf x (styAt cells 0)
+  have hclean := TM.C03.Lemmas.contAt_fixAt_self hRwf x (styAt cells 0)
+  have hlen' : x + (ofChars cs).length = x2 := by rw [← hcs, hcl]; omega
+  have inv := PaintInv.chars hRwf' hclean cs _ x [] (PaintInv.init hRwf' hclean)
+    (fun q hq => (hch q hq).1) (by rw [hlen', TM.C03.Lemmas.length_fixAt]; exact hx2)
+  rw [hlen', List.nil_append, ← hcs] at inv
+  have hF := inv.eq
+  rw [← hF]; exact inv
+
+/-- **row level: a repaint that cuts no character re-synchronises the row** -/
+theorem synced_newRow (cw : Nat → Nat) (O r rNew : Row) (W x0 x02 x x2 : Nat)
+    (hOl : O.length = W) (hOwf : rowWF O = true) (hsync : Synced O r x0 x02)
+    (hx0 : x0 ≤ x) (hx : x < x2) (hx2 : x2 ≤ x02) (hx02 : x02 ≤ W)
+    (hox : contAt O x = false) (hox2 : contAt O x2 = false)
+    (hnl : rNew.length = W) (hnew : RowOK cw rNew) (hsp : cw 32 ≤ 1)
+    (hleft : x0 < x → ∀ j, j < x → rNew[j]? = r[j]?)
+    (hright : x2 < x02 → ∀ j, x2 ≤ j → rNew[j]? = r[j]?)
+    (hnx : contAt rNew x = false) (hnx2 : contAt rNew x2 = false) :
+    Synced (newRow O rNew x x2) rNew x0 x02 ∧ (newRow O rNew x x2).length = W ∧
+      rowWF (newRow O rNew x x2) = true := by
+  have hok := subCells_rowOK cw rNew x x2 hnew (by omega) hsp
+  have inv := paintInv_newRow cw O (subCells rNew x x2) x x2 hOwf hx (by omega)
+    (subCells_length rNew x x2) hok
+  rw [TM.C03.Lemmas.fixAt_of_not_cont hox] at inv
+  have hF : newRow O rNew x x2 = repaintedRow O x x2 (subCells rNew x x2) := by
+    unfold newRow; rw [TM.C03.Lemmas.fixAt_of_not_cont hox]
+  rw [hF]
+  refine ⟨?_, by rw [inv.hlen, hOl], inv.hwf⟩
+  have hwfN := hnew.wf
+  intro i h1 h2
+  rw [subCells_getElem? rNew x0 x02 (i - x0) (by omega), show x0 + (i - x0) = i by omega]
+  have hold := hsync i h1 h2
+  rw [subCells_getElem? r x0 x02 (i - x0) (by omega), show x0 + (i - x0) = i by omega] at hold
+  rw [inv.cell i (by omega)]
+  by_cases hA : i < x
+  · rw [if_pos hA, hold]
+    congr 1
+    exact (cutCell_congr (fun j _ j2 => hleft (by omega) j (by omega))).symm
+  · rw [if_neg hA]
+    by_cases hB : i < x2
+    · rw [if_pos hB, subCells_getElem? rNew x x2 (i - x) (by omega), show x + (i - x) = i by omega]
+      congr 1
+      obtain ⟨t, w, st, hch, _, q3, _, q5⟩ := TM.C03.Lemmas.wf_head hwfN (show i < rNew.length by omega)
+      have hge := headOf_ge_of_clean (i := i) hnx (by omega)
+      have hle := TM.C03.Lemmas.headOf_le rNew i
+      have hend : headOf rNew i + w ≤ x2 := by
+        false_or_by_contra
+        obtain ⟨_, _, cs, _⟩ := TM.C03.Lemmas.wf_ch hwfN hch
+        have := cs x2 (by omega) (by omega)
+        rw [hnx2] at this; cases this
+      rw [cutCell_of_inside ⟨hge, by rw [q5]; exact hend⟩,
+        cutCell_of_inside ⟨by omega, by rw [q5]; omega⟩]
+    · have hge := headOf_ge_of_clean (i := i) hox2 (by omega)
+      rw [if_neg hB, if_neg (by omega), hold]
+      congr 1
+      have hrx2 : contAt r x2 = false := by
+        rw [← TM.C03.Lemmas.contAt_congr (hright (by omega) x2 (Nat.le_refl _))]; exact hnx2
+      have hger := headOf_ge_of_clean (i := i) hrx2 (by omega)
+      exact (cutCell_congr (fun j j1 _ => hright (by omega) j (by omega))).symm
+
+theorem repaintRows_length (s : Scr) (x x2 : Nat) : ∀ (n : Nat) (G : List Row) (y : Nat),
+    (repaintRows s x x2 G y n).length = G.length := by
+  intro n
+  induction n with
+  | zero => intro G y; rfl
+  | succ n ih => intro G y; simp [repaintRows, ih]
+
+theorem repaintRows_get (s : Scr) (x x2 : Nat) : ∀ (n : Nat) (G : List Row) (y y' : Nat),
+    y + n ≤ G.length →
+    (repaintRows s x x2 G y n)[y']? =
+      if y ≤ y' ∧ y' < y + n then some (newRow (G.getD y' []) (s.row y') x x2) else G[y']? := by
+  intro n
+  induction n with
+  | zero => intro G y y' _; rw [repaintRows, if_neg (by omega)]
+  | succ n ih =>
+    intro G y y' hle
+    rw [repaintRows, ih _ _ _ (by simp only [List.length_set]; omega)]
+    by_cases h1 : y + 1 ≤ y' ∧ y' < y + 1 + n
+    · rw [if_pos h1, if_pos (by omega)]
+      simp only [List.getD_eq_getElem?_getD]
+      rw [List.getElem?_set_ne (by omega)]
+    · rw [if_neg h1]
+      by_cases h2 : y' = y
+      · subst h2
+        rw [if_pos (by omega), List.getElem?_set_self (by omega)]
+      · rw [if_neg (by omega), List.getElem?_set_ne (Ne.symm h2)]
+
+theorem stSaved_ok (o : Term) (s : Scr) (og : OuterGrid o s) (y : Nat) (hy : y < s.h) :
+    OuterOK (stSaved o) s.w y :=
+  ⟨og.main, rfl, og.width, by show y < o.main.h; rw [og.height]; exact hy,
+    by show y < o.main.grid.length; rw [og.glen]; exact hy⟩
+
+theorem apply_save (cw : Nat → Nat) (o : Term) (ho : o.onAlt = false) :
+    (o.apply cw (.csi 0 [] true 0x73)).1 =
+      { o with main := { o.main with sx := o.main.cx, sy := o.main.cy } } := by
+  simp [Term.apply, Term.csi, Term.csiPlain, Term.scr, Term.setScr, ho, Scr.saveCursor]
+
+theorem apply_nowrap (cw : Nat → Nat) (o : Term) (ho : o.onAlt = false) :
+    (({ o with main := { o.main with sx := o.main.cx, sy := o.main.cy } } : Term).apply cw
+      (.csi 0x3f [7] true 0x6c)).1 = stSaved o := by
+  simp [Term.apply, Term.csi, Term.decModes, Term.decMode, Term.scr, Term.setScr, ho, stSaved]
+
+theorem apply_wrap_stO (cw : Nat → Nat) (o : Term) (ho : o.onAlt = false) (G : List Row)
+    (cx cy : Nat) :
+    ((stO (stSaved o) G cx cy Style.default).apply cw (.csi 0x3f [7] true 0x68)).1 =
+      stPainted o G cx cy := by
+  simp [Term.apply, Term.csi, Term.decModes, Term.decMode, Term.scr, Term.setScr, ho, stSaved, stO,
+    stPainted]
+
+theorem apply_restore_O (cw : Nat → Nat) (o : Term) (ho : o.onAlt = false) (G : List Row)
+    (cx cy : Nat) :
+    ((stPainted o G cx cy).apply cw (.csi 0 [] true 0x75)).1 = stDone o G := by
+  simp [Term.apply, Term.csi, Term.csiPlain, Term.scr, Term.setScr, Term.withScr, ho,
+    Scr.restoreCursor, stDone, stPainted]
+
+end Lemmas
+open Lemmas
+
+namespace Lemmas
+
+/-- all rows of the region repainted on an arbitrary grid, continuation style. `o1` is any outer
+    terminal satisfying `OuterOK` for the rows concerned (autowrap off). -/
+theorem exec_rows_O (cw : Nat → Nat) (o1 : Term) (W : Nat) (s : Scr) (x x2 : Nat)
+    (hx : x < x2) (hx2 : x2 ≤ W) (hmaxx : x < paramMax) (hsp : cw 32 ≤ 1) (rest : Bytes) (t' : Term) :
+    ∀ (n : Nat) (G : List Row) (y cx cy : Nat) (sty : Style),
+    y + n ≤ paramMax →
+    (∀ y', y ≤ y' → y' < y + n → OuterOK o1 W y') →
+    (∀ y', y ≤ y' → y' < y + n → ∃ R0, G[y']? = some R0 ∧ R0.length = W ∧ rowWF R0 = true ∧
+      (o1.pol = .blank ∨ contAt R0 x = false)) →
+    (∀ y', y ≤ y' → y' < y + n → (s.row y').length = W ∧ RowOK cw (s.row y')) →
+    (∀ cx' cy' sty', Exec cw (stO o1 (repaintRows s x x2 G y n) cx' cy' sty') rest t') →
+    Exec cw (stO o1 G cx cy sty) (renderRows s x x2 y n ++ rest) t' := by
+  intro n
+  induction n with
+  | zero =>
+    intro G y cx cy sty _ _ _ _ hk
+    exact hk cx cy sty
+  | succ n ih =>
+    intro G y cx cy sty hmax hok hG hrows hk
+    obtain ⟨hlen, hr⟩ := hrows y (Nat.le_refl _) (by omega)
+    obtain ⟨R0, hGy, hRl, hRwf, hpol⟩ := hG y (Nat.le_refl _) (by omega)
+    have hcells := subCells_rowOK cw (s.row y) x x2 hr (by omega) hsp
+    have hR0 : G.getD y [] = R0 := by rw [List.getD_eq_getElem?_getD, hGy]; rfl
+    rw [renderRows, List.append_assoc]
+    refine (exec_repaint_segment cw o1 W y (hok y (Nat.le_refl _) (by omega)) G cx cy sty x x2 R0
+      (subCells (s.row y) x x2) _ t' hGy hRl hRwf hx hx2 (subCells_length _ _ _) hmaxx (by omega)
+      hcells hpol ?_).1
+    apply ih _ (y + 1) _ _ _ (by omega) (fun y' h1 h2 => hok y' (by omega) (by omega))
+    · intro y' h1 h2
+      obtain ⟨R', h3, h4⟩ := hG y' (by omega) (by omega)
+      exact ⟨R', by rw [List.getElem?_set_ne (by omega)]; exact h3, h4⟩
+    · intro y' h1 h2
+      exact hrows y' (by omega) (by omega)
+    · intro cx' cy' sty'
+      have := hk cx' cy' sty'
+      rw [repaintRows, hR0] at this
+      exact this
+
+/-- the whole painting over an arbitrary outer terminal, continuation style -/
+theorem exec_repaint_region (cw : Nat → Nat) (o : Term) (s : Scr) (r0 : MRegion) (og : OuterGrid o s)
+    (hne : (r0.clamp s.w s.h).isEmpty = false)
+    (hrows : ∀ y, (r0.clamp s.w s.h).y ≤ y → y < (r0.clamp s.w s.h).y2 →
+      (s.row y).length = s.w ∧ RowOK cw (s.row y))
+    (hpol : ∀ y, (r0.clamp s.w s.h).y ≤ y → y < (r0.clamp s.w s.h).y2 →
+      o.pol = .blank ∨ contAt (o.main.row y) (r0.clamp s.w s.h).x = false)
+    (hsp : cw 32 ≤ 1) (hW : s.w ≤ paramMax) (hH : s.h ≤ paramMax) (rest : Bytes) (t' : Term)
+    (hk : Exec cw (stDone o (repaintRows s (r0.clamp s.w s.h).x (r0.clamp s.w s.h).x2 o.main.grid
+      (r0.clamp s.w s.h).y ((r0.clamp s.w s.h).y2 - (r0.clamp s.w s.h).y))) rest t') :
+    Exec cw o (renderRegion s r0 ++ rest) t' := by
+  have hx : (r0.clamp s.w s.h).x < (r0.clamp s.w s.h).x2 := by
+    simp only [MRegion.isEmpty, Bool.or_eq_false_iff, decide_eq_false_iff_not] at hne; omega
+  have hy : (r0.clamp s.w s.h).y < (r0.clamp s.w s.h).y2 := by
+    simp only [MRegion.isEmpty, Bool.or_eq_false_iff, decide_eq_false_iff_not] at hne; omega
+  have hx2 : (r0.clamp s.w s.h).x2 ≤ s.w := by simp only [MRegion.clamp]; omega
+  have hy2 : (r0.clamp s.w s.h).y2 ≤ s.h := by simp only [MRegion.clamp]; omega
+  unfold renderRegion
+  simp only [hne, Bool.false_eq_true, if_false]
+  generalize r0.clamp s.w s.h = r at hx hy hx2 hy2 hk hrows hpol ⊢
+  simp only [List.append_assoc]
+  apply Exec.tok (a := ansiSaveCursor) (tk := .csi 0 [] true 0x73) rfl (by decide)
+  rw [apply_save cw o og.main]
+  apply Exec.tok (a := ansiWrapDisable) (tk := .csi 0x3f [7] true 0x6c) rfl (by decide)
+  rw [apply_nowrap cw o og.main, ← stO_self (stSaved o)]
+  apply exec_rows_O cw (stSaved o) s.w s r.x r.x2 hx hx2 (by omega) hsp _ _ _ _ r.y _ _ _ (by omega)
+    (fun y' _ h2 => stSaved_ok o s og y' (by omega))
+  · intro y' h1 h2
+    have hy' : y' < s.h := by omega
+    refine ⟨o.main.row y', ?_, (og.rows y' hy').1, (og.rows y' hy').2, hpol y' h1 (by omega)⟩
+    show o.main.grid[y']? = _
+    rw [Scr.row, List.getD_eq_getElem?_getD, List.getElem?_eq_getElem (by rw [og.glen]; exact hy')]
+    rfl
+  · intro y' h1 h2
+    exact hrows y' h1 (by omega)
+  · intro cx' cy' sty'
+    rw [ansiReset_eq]
+    apply exec_ansiEscape cw Style.default TM.C07.Lemmas.valid_default
+    rw [withSty_stO (stSaved o) og.main]
+    apply Exec.tok (a := ansiWrapEnable) (tk := .csi 0x3f [7] true 0x68) rfl (by decide)
+    rw [apply_wrap_stO cw o og.main]
+    apply Exec.tok (a := ansiRestoreCursor) (tk := .csi 0 [] true 0x75) rfl (by decide)
+    rw [apply_restore_O cw o og.main]
+    exact hk
+
+end Lemmas
+open Lemmas
+
+/-- the grid of the outer terminal `o` after the painting of `r0` from the inner screen `s` -/
+def repaintedGrid (o : Term) (s : Scr) (r0 : MRegion) : List Row :=
+  repaintRows s (r0.clamp s.w s.h).x (r0.clamp s.w s.h).x2 o.main.grid
+    (r0.clamp s.w s.h).y ((r0.clamp s.w s.h).y2 - (r0.clamp s.w s.h).y)
+
+/-- **The whole painting over an ARBITRARY outer terminal: the complete state.** `o` shows its
+    main screen and has the inner screen's size, every row of the screen's width and well formed
+    (`OuterGrid`); autowrap, cursor, style, margins, the other buffer, view state arbitrary. After
+    `renderRegion s r0` the terminal is `o` with the rows of the clamped region replaced by
+    `newRow (old outer row) (inner row) x x2`, the cursor where it was, the SAVED cursor
+    overwritten with that position, autowrap ON and the current style default (`stDone`).
+    Grid policy: no further hypothesis; span policy: column `x` of no repainted outer row is a
+    continuation cell. -/
+theorem repaint_region_state (cw : Nat → Nat) (o : Term) (s : Scr) (r0 : MRegion) (og : OuterGrid o s)
+    (hne : (r0.clamp s.w s.h).isEmpty = false)
+    (hrows : ∀ y, (r0.clamp s.w s.h).y ≤ y → y < (r0.clamp s.w s.h).y2 →
+      (s.row y).length = s.w ∧ RowOK cw (s.row y))
+    (hpol : ∀ y, (r0.clamp s.w s.h).y ≤ y → y < (r0.clamp s.w s.h).y2 →
+      o.pol = .blank ∨ contAt (o.main.row y) (r0.clamp s.w s.h).x = false)
+    (hsp : cw 32 ≤ 1) (hW : s.w ≤ paramMax) (hH : s.h ≤ paramMax) :
+    (run cw o (renderRegion s r0)).1 = stDone o (repaintedGrid o s r0) := by
+  apply Exec.run
+  have := exec_repaint_region cw o s r0 og hne hrows hpol hsp hW hH [] _ (Exec.nil cw _)
+  rwa [List.append_nil] at this
+
+/-- the rows of `repaintedGrid`: inside the clamped region `newRow`, outside unchanged -/
+theorem repaintedGrid_row (o : Term) (s : Scr) (r0 : MRegion) (hg : o.main.grid.length = s.h)
+    (y : Nat) :
+    (stDone o (repaintedGrid o s r0)).main.row y =
+      if (r0.clamp s.w s.h).y ≤ y ∧ y < (r0.clamp s.w s.h).y2 then
+        newRow (o.main.row y) (s.row y) (r0.clamp s.w s.h).x (r0.clamp s.w s.h).x2
+      else o.main.row y := by
+  have hy2 : (r0.clamp s.w s.h).y2 ≤ s.h := by simp only [MRegion.clamp]; omega
+  have hy1 : (r0.clamp s.w s.h).y ≤ s.h := by simp only [MRegion.clamp]; omega
+  show List.getD (repaintedGrid o s r0) y [] = _
+  unfold repaintedGrid
+  rw [List.getD_eq_getElem?_getD, repaintRows_get _ _ _ _ _ _ _ (by omega)]
+  by_cases h : (r0.clamp s.w s.h).y ≤ y ∧ y < (r0.clamp s.w s.h).y2
+  · rw [if_pos (by omega), if_pos h]; rfl
+  · rw [if_neg (by omega), if_neg h, Scr.row, List.getD_eq_getElem?_getD]
+
+/-! ### the invariant -/
+
+/-- cell `(x, y)` lies in the rectangle `D` -/
+def inRect (D : MRegion) (x y : Nat) : Prop := D.x ≤ x ∧ x < D.x2 ∧ D.y ≤ y ∧ y < D.y2
+
+/-- **the mirror invariant**: inside the (clamped) region `R`, every row of the outer terminal
+    shows the window of the corresponding row of the inner screen -/
+def SyncedRegion (o : Term) (s : Scr) (R : MRegion) : Prop :=
+  ∀ y, (R.clamp s.w s.h).y ≤ y → y < (R.clamp s.w s.h).y2 →
+    Synced (o.main.row y) (s.row y) (R.clamp s.w s.h).x (R.clamp s.w s.h).x2
+
+/-- the cursor is to be shown: `cursor_spec` -/
+def cursorVisible (m : Mirror) : Prop :=
+  m.showCur = true ∧ m.focused = true ∧ m.region.x ≤ m.cx ∧ m.cx < m.region.x2 ∧
+    m.region.y ≤ m.cy ∧ m.cy < m.region.y2
+
+/-- the terminal with the cursor placed and shown -/
+def withCursor (t : Term) (cx cy : Nat) : Term :=
+  { t with main := { t.main with cx := cx, cy := cy }, vflags := t.vflags.set 1 true }
+
+/-- the terminal with the cursor hidden -/
+def cursorHidden (t : Term) : Term := { t with vflags := t.vflags.set 1 false }
+
+namespace Lemmas
+
+theorem apply_cup_any (cw : Nat → Nat) (t : Term) (ht : t.onAlt = false) (x y : Nat)
+    (hx : x < t.main.w) (hy : y < t.main.h) :
+    (t.apply cw (cupTokXY x y)).1 = { t with main := { t.main with cx := x, cy := y } } := by
+  have := apply_cup_stO cw t ht t.main.grid t.main.cx t.main.cy t.main.sty x y hx hy
+  rw [stO_self] at this
+  exact this
+
+theorem apply_show_any (cw : Nat → Nat) (t : Term) :
+    (t.apply cw (.csi 0x3f [25] true 0x68)).1 = { t with vflags := t.vflags.set 1 true } := by
+  simp [Term.apply, Term.csi, Term.decModes, Term.decMode, Term.setVFlag]
+
+theorem apply_hide_any (cw : Nat → Nat) (t : Term) :
+    (t.apply cw (.csi 0x3f [25] true 0x6c)).1 = cursorHidden t := by
+  simp [Term.apply, Term.csi, Term.decModes, Term.decMode, Term.setVFlag, cursorHidden]
+
+/-- the cursor part, read by any terminal showing its main screen -/
+theorem exec_cursor (cw : Nat → Nat) (m : Mirror) (ha : m.attached = true) (t : Term)
+    (ht : t.onAlt = false) (hcx : m.cx < t.main.w) (hcy : m.cy < t.main.h)
+    (hmx : m.cx < paramMax) (hmy : m.cy < paramMax) :
+    (cursorVisible m → Exec cw t m.renderCursor (withCursor t m.cx m.cy)) ∧
+    (¬ cursorVisible m → Exec cw t m.renderCursor (cursorHidden t)) := by
+  obtain ⟨hs1, hs2⟩ := cursor_spec m ha
+  constructor
+  · intro hv
+    rw [hs1.2 hv]
+    apply Exec.tok (next_cupXY m.cx m.cy hmx hmy _) (by simp [cupXY])
+    rw [apply_cup_any cw t ht m.cx m.cy hcx hcy]
+    have e : ansiCursorShow = ansiCursorShow ++ [] := (List.append_nil _).symm
+    rw [e]
+    apply Exec.tok (a := ansiCursorShow) (tk := .csi 0x3f [25] true 0x68) rfl (by decide)
+    rw [apply_show_any]
+    exact Exec.nil cw _
+  · intro hv
+    rw [hs2 hv]
+    have e : ansiCursorHide = ansiCursorHide ++ [] := (List.append_nil _).symm
+    rw [e]
+    apply Exec.tok (a := ansiCursorHide) (tk := .csi 0x3f [25] true 0x6c) rfl (by decide)
+    rw [apply_hide_any]
+    exact Exec.nil cw _
+
+end Lemmas
+open Lemmas
+
+namespace Lemmas
+
+theorem rect_left (Dx Rx w j : Nat) (h : min Rx w < min (max Dx Rx) w) (hj : j < min (max Dx Rx) w) :
+    j < Dx := by omega
+
+theorem rect_right (Dx2 Rx2 w j : Nat) (h : min (min Dx2 Rx2) w < min Rx2 w)
+    (hj : min (min Dx2 Rx2) w ≤ j) : Dx2 ≤ j := by omega
+
+theorem rect_rows (Dy Dy2 Ry Ry2 h y : Nat) (h1 : min Ry h ≤ y) (h2 : y < min Ry2 h)
+    (hn : ¬ (min (max Dy Ry) h ≤ y ∧ y < min (min Dy2 Ry2) h)) : ¬ (Dy ≤ y ∧ y < Dy2) := by omega
+
+theorem rect_sub (D R : MRegion) (w h : Nat) :
+    (R.clamp w h).x ≤ ((D.inter R).clamp w h).x ∧ ((D.inter R).clamp w h).x2 ≤ (R.clamp w h).x2 ∧
+    (R.clamp w h).x2 ≤ w ∧ (R.clamp w h).y ≤ ((D.inter R).clamp w h).y ∧
+    ((D.inter R).clamp w h).y2 ≤ (R.clamp w h).y2 ∧ (R.clamp w h).y2 ≤ h := by
+  simp only [MRegion.clamp, MRegion.inter]
+  omega
+
+end Lemmas
+open Lemmas
+
+/-- **`RegionChanged` keeps the mirror in sync.** An attached mirror with region `R = m.region`;
+    the outer terminal `o` fits the inner screen (`OuterGrid`) and shows it inside `R`
+    (`SyncedRegion o sOld R`). The inner screen changes from `sOld` to `sNew` (same size), every
+    cell outside the rectangle `D` unchanged, and the mirror executes `RegionChanged(D)`. If the
+    painted window `P = (D ∩ R)` clamped is not empty and cuts no character — columns `P.x`,
+    `P.x2` are continuation cells neither of the repainted outer rows nor of the new inner rows —
+    then the outer terminal that has read the written bytes again fits the inner screen and shows
+    `sNew` inside `R`; it is `stDone o (repaintedGrid …)` with the cursor placed at
+    `(m.cx, m.cy)` and shown when `cursorVisible m` (`cursor_spec`), hidden otherwise.
+    Both policies. -/
+theorem regionChanged_keeps_sync (cw : Nat → Nat) (m : Mirror) (o : Term) (sOld sNew : Scr)
+    (D : MRegion) (ha : m.attached = true) (hw : sNew.w = sOld.w) (hh : sNew.h = sOld.h)
+    (og : OuterGrid o sNew) (hsync : SyncedRegion o sOld m.region)
+    (hchg : ∀ y x, ¬ inRect D x y → (sNew.row y)[x]? = (sOld.row y)[x]?)
+    (hP : ((D.inter m.region).clamp sNew.w sNew.h).isEmpty = false)
+    (hrows : ∀ y, ((D.inter m.region).clamp sNew.w sNew.h).y ≤ y →
+      y < ((D.inter m.region).clamp sNew.w sNew.h).y2 →
+      (sNew.row y).length = sNew.w ∧ RowOK cw (sNew.row y))
+    (hnocut : ∀ y, ((D.inter m.region).clamp sNew.w sNew.h).y ≤ y →
+      y < ((D.inter m.region).clamp sNew.w sNew.h).y2 →
+      contAt (o.main.row y) ((D.inter m.region).clamp sNew.w sNew.h).x = false ∧
+      contAt (o.main.row y) ((D.inter m.region).clamp sNew.w sNew.h).x2 = false ∧
+      contAt (sNew.row y) ((D.inter m.region).clamp sNew.w sNew.h).x = false ∧
+      contAt (sNew.row y) ((D.inter m.region).clamp sNew.w sNew.h).x2 = false)
+    (hsp : cw 32 ≤ 1) (hW : sNew.w ≤ paramMax) (hH : sNew.h ≤ paramMax)
+    (hcx : m.cx < sNew.w) (hcy : m.cy < sNew.h) :
+    let T := (run cw o (m.step sNew (.regionChanged D)).2).1
+    let P' := stDone o (repaintedGrid o sNew (D.inter m.region))
+    (m.step sNew (.regionChanged D)).1 = m ∧
+    SyncedRegion T sNew m.region ∧ OuterGrid T sNew ∧
+    (cursorVisible m → T = withCursor P' m.cx m.cy) ∧
+    (¬ cursorVisible m → T = cursorHidden P') := by
+  intro T P'
+  -- the bytes written
+  have hout : (m.step sNew (.regionChanged D)).2 =
+      renderRegion sNew (D.inter m.region) ++ m.renderCursor := by
+    simp [Mirror.step, Mirror.renderRegion, ha, hP]
+  -- the state reached
+  have hpol : ∀ y, ((D.inter m.region).clamp sNew.w sNew.h).y ≤ y →
+      y < ((D.inter m.region).clamp sNew.w sNew.h).y2 →
+      o.pol = .blank ∨ contAt (o.main.row y) ((D.inter m.region).clamp sNew.w sNew.h).x = false :=
+    fun y h1 h2 => Or.inr (hnocut y h1 h2).1
+  have hP'alt : P'.onAlt = false := og.main
+  have hcur := exec_cursor cw m ha P' hP'alt (by show m.cx < o.main.w; rw [og.width]; exact hcx)
+    (by show m.cy < o.main.h; rw [og.height]; exact hcy) (by omega) (by omega)
+  have hTv : cursorVisible m → T = withCursor P' m.cx m.cy := by
+    intro hv
+    show (run cw o _).1 = _
+    rw [hout]
+    exact Exec.run (exec_repaint_region cw o sNew _ og hP hrows hpol hsp hW hH _ _ (hcur.1 hv))
+  have hTh : ¬ cursorVisible m → T = cursorHidden P' := by
+    intro hv
+    show (run cw o _).1 = _
+    rw [hout]
+    exact Exec.run (exec_repaint_region cw o sNew _ og hP hrows hpol hsp hW hH _ _ (hcur.2 hv))
+  -- rows, size, buffer of `T` are those of `P'`
+  have hTrow : ∀ y, T.main.row y = P'.main.row y := by
+    intro y
+    by_cases hv : cursorVisible m
+    · rw [hTv hv]; rfl
+    · rw [hTh hv]; rfl
+  have hTfix : T.onAlt = false ∧ T.main.w = sNew.w ∧ T.main.h = sNew.h ∧
+      T.main.grid.length = sNew.h := by
+    have hgl : (repaintedGrid o sNew (D.inter m.region)).length = sNew.h := by
+      unfold repaintedGrid; rw [repaintRows_length, og.glen]
+    by_cases hv : cursorVisible m
+    · rw [hTv hv]; exact ⟨og.main, og.width, og.height, hgl⟩
+    · rw [hTh hv]; exact ⟨og.main, og.width, og.height, hgl⟩
+  suffices hsuff : SyncedRegion T sNew m.region ∧ OuterGrid T sNew from
+    ⟨rfl, hsuff.1, hsuff.2, hTv, hTh⟩
+  -- arithmetic of the rectangles
+  obtain ⟨hc1, hc2, hc3, hc4, hc5, hc6⟩ := rect_sub D m.region sNew.w sNew.h
+  have hleftA : (m.region.clamp sNew.w sNew.h).x < ((D.inter m.region).clamp sNew.w sNew.h).x →
+      ∀ j, j < ((D.inter m.region).clamp sNew.w sNew.h).x → j < D.x :=
+    fun h j hj => rect_left D.x m.region.x sNew.w j h hj
+  have hrightA : ((D.inter m.region).clamp sNew.w sNew.h).x2 < (m.region.clamp sNew.w sNew.h).x2 →
+      ∀ j, ((D.inter m.region).clamp sNew.w sNew.h).x2 ≤ j → D.x2 ≤ j :=
+    fun h j hj => rect_right D.x2 m.region.x2 sNew.w j h hj
+  have hrowsA : ∀ y, (m.region.clamp sNew.w sNew.h).y ≤ y → y < (m.region.clamp sNew.w sNew.h).y2 →
+      ¬ (((D.inter m.region).clamp sNew.w sNew.h).y ≤ y ∧ y < ((D.inter m.region).clamp sNew.w sNew.h).y2) →
+      ¬ (D.y ≤ y ∧ y < D.y2) :=
+    fun y h1 h2 hn => rect_rows D.y D.y2 m.region.y m.region.y2 sNew.h y h1 h2 hn
+  have hPne : ((D.inter m.region).clamp sNew.w sNew.h).x < ((D.inter m.region).clamp sNew.w sNew.h).x2 := by
+    simp only [MRegion.isEmpty, Bool.or_eq_false_iff, decide_eq_false_iff_not] at hP; omega
+  have hsync' : ∀ y, (m.region.clamp sNew.w sNew.h).y ≤ y → y < (m.region.clamp sNew.w sNew.h).y2 →
+      Synced (o.main.row y) (sOld.row y) (m.region.clamp sNew.w sNew.h).x
+        (m.region.clamp sNew.w sNew.h).x2 := by
+    intro y h1 h2
+    have := hsync y (by rw [← hw, ← hh]; exact h1) (by rw [← hw, ← hh]; exact h2)
+    rw [← hw, ← hh] at this
+    exact this
+  have hrowT : ∀ y, T.main.row y =
+      if ((D.inter m.region).clamp sNew.w sNew.h).y ≤ y ∧ y < ((D.inter m.region).clamp sNew.w sNew.h).y2
+      then newRow (o.main.row y) (sNew.row y) ((D.inter m.region).clamp sNew.w sNew.h).x
+        ((D.inter m.region).clamp sNew.w sNew.h).x2
+      else o.main.row y := by
+    intro y
+    rw [hTrow]
+    exact repaintedGrid_row o sNew (D.inter m.region) og.glen y
+  clear hTrow hTv hTh hcur hout hpol
+  unfold SyncedRegion
+  clear_value T P'
+  generalize ((D.inter m.region).clamp sNew.w sNew.h) = P at *
+  generalize (m.region.clamp sNew.w sNew.h) = Rc at *
+  -- the repainted rows
+  have hpainted : ∀ y, P.y ≤ y → y < P.y2 →
+      Synced (newRow (o.main.row y) (sNew.row y) P.x P.x2) (sNew.row y) Rc.x Rc.x2 ∧
+      (newRow (o.main.row y) (sNew.row y) P.x P.x2).length = sNew.w ∧
+      rowWF (newRow (o.main.row y) (sNew.row y) P.x P.x2) = true := by
+    intro y h1 h2
+    have hyh : y < sNew.h := by omega
+    obtain ⟨c1, c2, c3, c4⟩ := hnocut y h1 h2
+    obtain ⟨l1, l2⟩ := hrows y h1 h2
+    apply synced_newRow cw (o.main.row y) (sOld.row y) (sNew.row y) sNew.w Rc.x Rc.x2 P.x P.x2
+      (og.rows y hyh).1 (og.rows y hyh).2 (hsync' y (by omega) (by omega)) (by omega) hPne (by omega)
+      (by omega) c1 c2 l1 l2 hsp
+    · intro hlt j hj
+      apply hchg
+      have := hleftA hlt j hj
+      unfold inRect; omega
+    · intro hlt j hj
+      apply hchg
+      have := hrightA hlt j hj
+      unfold inRect; omega
+    · exact c3
+    · exact c4
+  refine ⟨?_, ⟨hTfix.1, hTfix.2.1, hTfix.2.2.1, hTfix.2.2.2, ?_⟩⟩
+  · -- the invariant
+    intro y h1 h2
+    rw [hrowT]
+    by_cases hp : P.y ≤ y ∧ y < P.y2
+    · rw [if_pos hp]; exact (hpainted y hp.1 hp.2).1
+    · rw [if_neg hp]
+      have hrow : sNew.row y = sOld.row y := by
+        apply List.ext_getElem?
+        intro x
+        apply hchg
+        have := hrowsA y h1 h2 hp
+        unfold inRect; omega
+      rw [hrow]
+      exact hsync' y h1 h2
+  · -- the rows stay well formed
+    intro y hy
+    rw [hrowT]
+    by_cases hp : P.y ≤ y ∧ y < P.y2
+    · rw [if_pos hp]; exact (hpainted y hp.1 hp.2).2
+    · rw [if_neg hp]; exact og.rows y hy
+
+/-- **`RegionChanged` with nothing to paint.** When `D ∩ R` (clamped) is empty the mirror writes
+    nothing, so the outer terminal stays as it is; the invariant is kept provided the change did
+    not touch the characters shown inside `R`: for every cell `i` of a row of the clamped region,
+    the cells from the first column of the inner character covering `i` up to `i` are unchanged
+    (this is what `cutCell` reads). It holds in particular when the whole rows of the region are
+    unchanged, or when the change lies right of the region, or left of it and no inner character
+    straddles the region's left edge. -/
+theorem regionChanged_empty_keeps_sync (cw : Nat → Nat) (m : Mirror) (o : Term) (sOld sNew : Scr)
+    (D : MRegion) (hw : sNew.w = sOld.w) (hh : sNew.h = sOld.h)
+    (hsync : SyncedRegion o sOld m.region)
+    (hP : ((D.inter m.region).clamp sNew.w sNew.h).isEmpty = true)
+    (hkeep : ∀ y, (m.region.clamp sNew.w sNew.h).y ≤ y → y < (m.region.clamp sNew.w sNew.h).y2 →
+      ∀ i, (m.region.clamp sNew.w sNew.h).x ≤ i → i < (m.region.clamp sNew.w sNew.h).x2 →
+      ∀ j, headOf (sOld.row y) i ≤ j → j ≤ i → (sNew.row y)[j]? = (sOld.row y)[j]?) :
+    m.step sNew (.regionChanged D) = (m, []) ∧
+    (run cw o (m.step sNew (.regionChanged D)).2).1 = o ∧ SyncedRegion o sNew m.region := by
+  have hstep := region_outside_silent m sNew D hP
+  refine ⟨hstep, ?_, ?_⟩
+  · rw [hstep]; exact Exec.run (Exec.nil cw o)
+  · intro y h1 h2 i h3 h4
+    have := hsync y (by rw [← hw, ← hh]; exact h1) (by rw [← hw, ← hh]; exact h2) i
+      (by rw [← hw, ← hh]; exact h3) (by rw [← hw, ← hh]; exact h4)
+    rw [← hw, ← hh] at this
+    rw [this, subCells_getElem? _ _ _ _ (by omega), subCells_getElem? _ _ _ _ (by omega)]
+    congr 1
+    exact (cutCell_congr (hkeep y h1 h2 _ (by omega) (by omega))).symm
+
+/-- **`Attach` establishes the invariant.** After everything `Attach(r0)` writes has been read by
+    a fresh outer terminal of the inner screen's size, the outer terminal fits the inner screen
+    and shows it inside `r0`; the mirror is attached to `r0`. -/
+theorem attach_establishes_sync (cw : Nat → Nat) (pol : WidePolicy) (m : Mirror) (s : Scr)
+    (r0 : MRegion) (hne : (r0.clamp s.w s.h).isEmpty = false)
+    (hrows : ∀ y, y < s.h → (s.row y).length = s.w ∧ RowOK cw (s.row y))
+    (hsp : cw 32 ≤ 1) (hW : s.w ≤ paramMax) (hH : s.h ≤ paramMax)
+    (hcx : m.cx < s.w) (hcy : m.cy < s.h) :
+    let T := (run cw (Term.init pol s.w s.h) (m.step s (.attach r0)).2).1
+    (m.step s (.attach r0)).1.attached = true ∧ (m.step s (.attach r0)).1.region = r0 ∧
+    SyncedRegion T s r0 ∧ OuterGrid T s := by
+  intro T
+  obtain ⟨_, a2, a3⟩ := attach_fresh cw pol m s r0 hne hrows hsp hW hH hcx hcy
+  obtain ⟨f1, f2, _, _, _, _, f7, f8, f9, f10⟩ := mirror_region_fresh cw pol s r0 hne hrows hsp hW hH
+  have hx : (r0.clamp s.w s.h).x < (r0.clamp s.w s.h).x2 := by
+    simp only [MRegion.isEmpty, Bool.or_eq_false_iff, decide_eq_false_iff_not] at hne; omega
+  have hx2 : (r0.clamp s.w s.h).x2 ≤ s.w := by simp only [MRegion.clamp]; omega
+  have hy2 : (r0.clamp s.w s.h).y2 ≤ s.h := by simp only [MRegion.clamp]; omega
+  -- rows, size and buffer of `T` are those of the painted terminal
+  have hT : (∀ y, T.main.row y = (run cw (Term.init pol s.w s.h) (renderRegion s r0)).1.main.row y) ∧
+      T.onAlt = false ∧ T.main.w = s.w ∧ T.main.h = s.h ∧ T.main.grid.length = s.h := by
+    by_cases hv : m.showCur = true ∧ m.focused = true ∧ r0.x ≤ m.cx ∧ m.cx < r0.x2 ∧
+        r0.y ≤ m.cy ∧ m.cy < r0.y2
+    · have e : T = _ := a2 hv
+      rw [e]; exact ⟨fun y => rfl, f10, f7, f8, f9⟩
+    · have e : T = _ := a3 hv
+      rw [e]; exact ⟨fun y => rfl, f10, f7, f8, f9⟩
+  obtain ⟨hrow, t1, t2, t3, t4⟩ := hT
+  unfold SyncedRegion
+  generalize r0.clamp s.w s.h = r at f1 f2 hx hx2 hy2 ⊢
+  refine ⟨rfl, rfl, ?_, ⟨t1, t2, t3, t4, ?_⟩⟩
+  · intro y h1 h2 i h3 h4
+    show (T.main.row y)[i]? = _
+    rw [hrow, f1 y h1 h2, List.getElem?_append_left (by
+      rw [List.length_append, length_blankRow, subCells_length]; omega),
+      List.getElem?_append_right (by rw [length_blankRow]; exact h3), length_blankRow]
+  · intro y hy
+    rw [hrow]
+    by_cases hin : r.y ≤ y ∧ y < r.y2
+    · rw [f1 y hin.1 hin.2]
+      refine ⟨?_, ?_⟩
+      · rw [List.length_append, List.length_append, length_blankRow, length_blankRow, subCells_length]
+        omega
+      · have hsub := (subCells_rowOK cw (s.row y) r.x r.x2 (hrows y hy).2
+          (by rw [(hrows y hy).1]; exact hx2) hsp).wf
+        exact TM.C03.Lemmas.wf_append
+          (TM.C03.Lemmas.wf_append (TM.C03.Lemmas.blankRow_wf _ _) hsub) (TM.C03.Lemmas.blankRow_wf _ _)
+    · rw [f2 y hy hin]
+      exact ⟨length_blankRow _ _, TM.C03.Lemmas.blankRow_wf _ _⟩
+
+/-- **The whole painting over an arbitrary outer terminal, cell by cell**, when the painted window
+    cuts no character of the repainted outer rows (columns `x`, `x2` of the clamped region are not
+    continuation cells there; both policies): in every row of the clamped region the cells
+    `[x, x2)` are the window of the inner row and every other cell is unchanged; the rows outside
+    are unchanged; the cursor is where it was, the saved cursor is overwritten with that position,
+    autowrap is ON, the current style is default; the terminal still fits the inner screen. -/
+theorem repaint_region (cw : Nat → Nat) (o : Term) (s : Scr) (r0 : MRegion) (og : OuterGrid o s)
+    (hne : (r0.clamp s.w s.h).isEmpty = false)
+    (hrows : ∀ y, (r0.clamp s.w s.h).y ≤ y → y < (r0.clamp s.w s.h).y2 →
+      (s.row y).length = s.w ∧ RowOK cw (s.row y))
+    (hnocut : ∀ y, (r0.clamp s.w s.h).y ≤ y → y < (r0.clamp s.w s.h).y2 →
+      contAt (o.main.row y) (r0.clamp s.w s.h).x = false ∧
+      contAt (o.main.row y) (r0.clamp s.w s.h).x2 = false)
+    (hsp : cw 32 ≤ 1) (hW : s.w ≤ paramMax) (hH : s.h ≤ paramMax) :
+    let r := r0.clamp s.w s.h
+    let T := (run cw o (renderRegion s r0)).1
+    (∀ y, r.y ≤ y → y < r.y2 → ∀ i, i < s.w → (T.main.row y)[i]? =
+      if r.x ≤ i ∧ i < r.x2 then (subCells (s.row y) r.x r.x2)[i - r.x]? else (o.main.row y)[i]?) ∧
+    (∀ y, ¬ (r.y ≤ y ∧ y < r.y2) → T.main.row y = o.main.row y) ∧
+    T.main.cx = o.main.cx ∧ T.main.cy = o.main.cy ∧ T.main.sx = o.main.cx ∧ T.main.sy = o.main.cy ∧
+    T.main.wrap = true ∧ T.main.sty = Style.default ∧ OuterGrid T s := by
+  intro r T
+  have hT : T = _ := repaint_region_state cw o s r0 og hne hrows
+    (fun y h1 h2 => Or.inr (hnocut y h1 h2).1) hsp hW hH
+  have hrowT := fun y => repaintedGrid_row o s r0 og.glen y
+  have hx : (r0.clamp s.w s.h).x < (r0.clamp s.w s.h).x2 := by
+    simp only [MRegion.isEmpty, Bool.or_eq_false_iff, decide_eq_false_iff_not] at hne; omega
+  have hx2 : (r0.clamp s.w s.h).x2 ≤ s.w := by simp only [MRegion.clamp]; omega
+  have hy2 : (r0.clamp s.w s.h).y2 ≤ s.h := by simp only [MRegion.clamp]; omega
+  have hgl : (repaintedGrid o s r0).length = s.h := by
+    unfold repaintedGrid; rw [repaintRows_length, og.glen]
+  have hr : r = r0.clamp s.w s.h := rfl
+  rw [← hr] at hrowT hx hx2 hy2 hrows hnocut
+  clear_value r
+  -- the painted rows
+  have hinv : ∀ y, r.y ≤ y → y < r.y2 →
+      newRow (o.main.row y) (s.row y) r.x r.x2 =
+        repaintedRow (o.main.row y) r.x r.x2 (subCells (s.row y) r.x r.x2) ∧
+      PaintInv (o.main.row y) r.x r.x2 (subCells (s.row y) r.x r.x2)
+        (repaintedRow (o.main.row y) r.x r.x2 (subCells (s.row y) r.x r.x2)) := by
+    intro y h1 h2
+    have hyh : y < s.h := by omega
+    have hok := subCells_rowOK cw (s.row y) r.x r.x2 (hrows y h1 h2).2
+      (by rw [(hrows y h1 h2).1]; exact hx2) hsp
+    have inv := paintInv_newRow cw (o.main.row y) _ r.x r.x2 (og.rows y hyh).2 hx
+      (by rw [(og.rows y hyh).1]; exact hx2) (subCells_length _ _ _) hok
+    rw [TM.C03.Lemmas.fixAt_of_not_cont (hnocut y h1 h2).1] at inv
+    refine ⟨?_, inv⟩
+    unfold newRow
+    rw [TM.C03.Lemmas.fixAt_of_not_cont (hnocut y h1 h2).1]
+  rw [hT]
+  refine ⟨?_, ?_, rfl, rfl, rfl, rfl, rfl, rfl, ⟨og.main, og.width, og.height, hgl, ?_⟩⟩
+  · intro y h1 h2 i hi
+    have hyh : y < s.h := by omega
+    obtain ⟨e, inv⟩ := hinv y h1 h2
+    rw [hrowT, if_pos ⟨h1, h2⟩, e, inv.cell i (by rw [(og.rows y hyh).1]; exact hi)]
+    by_cases hA : i < r.x
+    · rw [if_pos hA, if_neg (by omega)]
+    · rw [if_neg hA]
+      by_cases hB : i < r.x2
+      · rw [if_pos hB, if_pos ⟨by omega, hB⟩]
+      · have := headOf_ge_of_clean (i := i) (hnocut y h1 h2).2 (by omega)
+        rw [if_neg hB, if_neg (by omega), if_neg (by omega)]
+  · intro y hn
+    rw [hrowT, if_neg hn]
+  · intro y hy
+    rw [hrowT]
+    by_cases hin : r.y ≤ y ∧ y < r.y2
+    · obtain ⟨e, inv⟩ := hinv y hin.1 hin.2
+      rw [if_pos hin, e]
+      exact ⟨by rw [inv.hlen]; exact (og.rows y hy).1, inv.hwf⟩
+    · rw [if_neg hin]; exact og.rows y hy
+
+/-! ### the invariant along a run of `RegionChanged` steps -/
+
+/-- a step that paints: hypotheses of `regionChanged_keeps_sync` -/
+def PaintStep (cw : Nat → Nat) (m : Mirror) (o : Term) (sOld sNew : Scr) (D : MRegion) : Prop :=
+  (∀ y x, ¬ inRect D x y → (sNew.row y)[x]? = (sOld.row y)[x]?) ∧
+  ((D.inter m.region).clamp sNew.w sNew.h).isEmpty = false ∧
+  (∀ y, ((D.inter m.region).clamp sNew.w sNew.h).y ≤ y →
+    y < ((D.inter m.region).clamp sNew.w sNew.h).y2 →
+    ((sNew.row y).length = sNew.w ∧ RowOK cw (sNew.row y)) ∧
+    contAt (o.main.row y) ((D.inter m.region).clamp sNew.w sNew.h).x = false ∧
+    contAt (o.main.row y) ((D.inter m.region).clamp sNew.w sNew.h).x2 = false ∧
+    contAt (sNew.row y) ((D.inter m.region).clamp sNew.w sNew.h).x = false ∧
+    contAt (sNew.row y) ((D.inter m.region).clamp sNew.w sNew.h).x2 = false) ∧
+  sNew.w ≤ paramMax ∧ sNew.h ≤ paramMax ∧ m.cx < sNew.w ∧ m.cy < sNew.h
+
+/-- a step that paints nothing: hypotheses of `regionChanged_empty_keeps_sync` -/
+def IdleStep (m : Mirror) (sOld sNew : Scr) (D : MRegion) : Prop :=
+  ((D.inter m.region).clamp sNew.w sNew.h).isEmpty = true ∧
+  ∀ y, (m.region.clamp sNew.w sNew.h).y ≤ y → y < (m.region.clamp sNew.w sNew.h).y2 →
+    ∀ i, (m.region.clamp sNew.w sNew.h).x ≤ i → i < (m.region.clamp sNew.w sNew.h).x2 →
+    ∀ j, headOf (sOld.row y) i ≤ j → j ≤ i → (sNew.row y)[j]? = (sOld.row y)[j]?
+
+/-- the outer terminal after a run of (inner change, `RegionChanged(D)`) steps -/
+def mirrorRun (cw : Nat → Nat) (m : Mirror) : Term → List (Scr × MRegion) → Term
+  | o, [] => o
+  | o, (sNew, D) :: rest => mirrorRun cw m (run cw o (m.step sNew (.regionChanged D)).2).1 rest
+
+/-- the inner screen after the run -/
+def lastScr : Scr → List (Scr × MRegion) → Scr
+  | s, [] => s
+  | _, (sNew, _) :: rest => lastScr sNew rest
+
+/-- the per-step hypotheses along the run (they speak about the outer terminal of the moment) -/
+def StepsOK (cw : Nat → Nat) (m : Mirror) : Term → Scr → List (Scr × MRegion) → Prop
+  | _, _, [] => True
+  | o, sOld, (sNew, D) :: rest =>
+    sNew.w = sOld.w ∧ sNew.h = sOld.h ∧
+    (PaintStep cw m o sOld sNew D ∨ IdleStep m sOld sNew D) ∧
+    StepsOK cw m (run cw o (m.step sNew (.regionChanged D)).2).1 sNew rest
+
+theorem OuterGrid.resize {o : Term} {s s' : Scr} (og : OuterGrid o s) (hw : s'.w = s.w)
+    (hh : s'.h = s.h) : OuterGrid o s' :=
+  ⟨og.main, by rw [hw]; exact og.width, by rw [hh]; exact og.height, by rw [hh]; exact og.glen,
+    fun y hy => by rw [hw]; exact og.rows y (by rw [← hh]; exact hy)⟩
+
+/-- **The mirror invariant along any run.** An attached mirror whose outer terminal fits the
+    inner screen and shows it inside the region keeps doing so along every sequence of
+    (inner change announced by `D`, `RegionChanged(D)`) steps whose painted windows cut no
+    character (`PaintStep`) or that paint nothing without touching the shown characters
+    (`IdleStep`). With `attach_establishes_sync` for the start: a `TTYFrontend` attached to a
+    region keeps an outer terminal that interprets its output identical to the inner screen
+    inside that region. -/
+theorem mirror_invariant_run (cw : Nat → Nat) (m : Mirror) (ha : m.attached = true)
+    (hsp : cw 32 ≤ 1) :
+    ∀ (steps : List (Scr × MRegion)) (o : Term) (s0 : Scr),
+    OuterGrid o s0 → SyncedRegion o s0 m.region → StepsOK cw m o s0 steps →
+    SyncedRegion (mirrorRun cw m o steps) (lastScr s0 steps) m.region ∧
+      OuterGrid (mirrorRun cw m o steps) (lastScr s0 steps) := by
+  intro steps
+  induction steps with
+  | nil => intro o s0 og hs _; exact ⟨hs, og⟩
+  | cons st rest ih =>
+    intro o s0 og hs hok
+    obtain ⟨sNew, D⟩ := st
+    obtain ⟨hw, hh, hstep, hrest⟩ := hok
+    show SyncedRegion (mirrorRun cw m (run cw o (m.step sNew (.regionChanged D)).2).1 rest)
+      (lastScr sNew rest) m.region ∧
+      OuterGrid (mirrorRun cw m (run cw o (m.step sNew (.regionChanged D)).2).1 rest)
+        (lastScr sNew rest)
+    rcases hstep with ⟨h1, h2, h3, h4, h5, h6, h7⟩ | ⟨h1, h2⟩
+    · obtain ⟨_, q2, q3, _, _⟩ := regionChanged_keeps_sync cw m o s0 sNew D ha hw hh (og.resize hw hh)
+        hs h1 h2 (fun y a b => (h3 y a b).1) (fun y a b => (h3 y a b).2) hsp h4 h5 h6 h7
+      exact ih _ sNew q3 q2 hrest
+    · obtain ⟨_, q2, q3⟩ := regionChanged_empty_keeps_sync cw m o s0 sNew D hw hh hs h1 h2
+      rw [q2] at hrest ⊢
+      exact ih _ sNew (og.resize hw hh) q3 hrest
+
 /-! ## non-vacuity -/
 
 namespace Examples
@@ -1860,6 +2629,62 @@ example (pol : WidePolicy) :
     · omega
     · rfl
 
+/-! ### Part 7 -/
+
+/-- the inner screen before and after: `A B 世 世 C D` → `D C 世 世 B A` -/
+def sOld6 : Scr := { Scr.init 6 1 with grid := [row6] }
+def sNew6 : Scr := { Scr.init 6 1 with grid := [row6'] }
+def mAtt : Mirror := { attached := true, region := ⟨0, 0, 6, 1⟩, cx := 2, cy := 0 }
+
+theorem outer6_grid (pol : WidePolicy) : OuterGrid (outer6 pol) sNew6 :=
+  ⟨rfl, rfl, rfl, rfl, fun y hy => by
+    have : y = 0 := by have : sNew6.h = 1 := rfl; omega
+    subst this
+    exact ⟨rfl, (show rowWF row6 = true by decide)⟩⟩
+
+/-- the hypotheses of `regionChanged_keeps_sync` hold: the whole row is announced and repainted
+    over the NON-fresh outer terminal `outer6` (either policy), and the outer terminal then shows
+    the new inner screen inside the region -/
+example (pol : WidePolicy) :
+    SyncedRegion (run cw (outer6 pol) (mAtt.step sNew6 (.regionChanged ⟨0, 0, 6, 1⟩)).2).1 sNew6
+      ⟨0, 0, 6, 1⟩ := by
+  refine (regionChanged_keeps_sync cw mAtt (outer6 pol) sOld6 sNew6 ⟨0, 0, 6, 1⟩ rfl rfl rfl
+    (outer6_grid pol) ?_ ?_ (by decide) ?_ ?_ (by decide) (by decide) (by decide) (by decide)
+    (by decide)).2.1
+  · intro y h1 h2 i _ _
+    have : y = 0 := by
+      have e : ((⟨0, 0, 6, 1⟩ : MRegion).clamp sOld6.w sOld6.h).y2 = 1 := by decide
+      have : y < 1 := by rw [← e]; exact h2
+      omega
+    subst this
+    show row6[i]? = (subCells row6 0 6)[i - 0]?
+    rw [subCells_full row6 6 rfl (by decide)]; rfl
+  · intro y x h
+    rcases y with _ | y
+    · have hx : 6 ≤ x := by
+        unfold inRect at h
+        simp only [Nat.zero_le, true_and, Nat.lt_add_one, and_true, Nat.not_lt] at h
+        exact h
+      show row6'[x]? = row6[x]?
+      rw [List.getElem?_eq_none (show row6'.length ≤ x from hx),
+        List.getElem?_eq_none (show row6.length ≤ x from hx)]
+    · rfl
+  · intro y h1 h2
+    have e : (((⟨0, 0, 6, 1⟩ : MRegion).inter mAtt.region).clamp sNew6.w sNew6.h).y2 = 1 := by decide
+    have : y = 0 := by
+      have : y < 1 := by rw [← e]; exact h2
+      omega
+    subst this
+    exact ⟨rfl, rowOK6'⟩
+  · intro y h1 h2
+    have e : (((⟨0, 0, 6, 1⟩ : MRegion).inter mAtt.region).clamp sNew6.w sNew6.h).y2 = 1 := by decide
+    have : y = 0 := by
+      have : y < 1 := by rw [← e]; exact h2
+      omega
+    subst this
+    exact ⟨(show contAt row6 0 = false by decide), (show contAt row6 6 = false by decide),
+      by decide, by decide⟩
+
 end Examples
 
 end TM.C11M
@@ -1888,3 +2713,9 @@ end TM.C11M
 #print axioms TM.C11M.repaint_row
 #print axioms TM.C11M.repaint_row_right_clean
 #print axioms TM.C11M.repaint_syncs
+#print axioms TM.C11M.repaint_region_state
+#print axioms TM.C11M.repaint_region
+#print axioms TM.C11M.regionChanged_keeps_sync
+#print axioms TM.C11M.regionChanged_empty_keeps_sync
+#print axioms TM.C11M.attach_establishes_sync
+#print axioms TM.C11M.mirror_invariant_run
